@@ -16,7 +16,9 @@ func (p *Program) lemmaObligations(id string) ([]OblResult, []string, error) {
 			}
 			vc := newVC(p, "lemma#"+lm.Name)
 			vc.comps = map[string]compInfo{}
-			env := &Env{vc: vc, p: p, pkg: pkg, vars: map[string]Bound{}, state: newState(), old: newState()}
+			lst := newState()
+			lst.epoch = nextEpoch() // not the entry epoch: results of used contracts live in the same abstract state
+			env := &Env{vc: vc, p: p, pkg: pkg, vars: map[string]Bound{}, state: lst, old: lst}
 			for _, v := range lm.Vars {
 				s, t, err := env.sortOfTypeName(v.Type)
 				if err != nil {
@@ -31,6 +33,11 @@ func (p *Program) lemmaObligations(id string) ([]OblResult, []string, error) {
 			}
 			if lm.Raw != "" {
 				vc.decls = append(vc.decls, lm.Raw)
+			}
+			for _, u := range lm.Uses {
+				if err := p.lemmaUse(vc, env, pkg, cf, u); err != nil {
+					return nil, nil, fmt.Errorf("lemma %s use %q: %v", lm.Name, u, err)
+				}
 			}
 			for _, h := range lm.Hyps {
 				t, err := env.evalBool(h.Expr)
@@ -63,4 +70,74 @@ func (p *Program) lemmaObligations(id string) ([]OblResult, []string, error) {
 		}
 	}
 	return out, assumptions, nil
+}
+
+// lemmaUse: "F(a, b) as r[, r2]" assumes the postconditions of contract F (the lemma is then a statement over contracts).
+func (p *Program) lemmaUse(vc *VC, env *Env, pkg string, cf *ContractFile, text string) error {
+	i := strings.LastIndex(text, " as ")
+	if i < 0 {
+		return fmt.Errorf("expected 'F(args) as r'")
+	}
+	call, err := parseExpr(strings.TrimSpace(text[:i]))
+	if err != nil {
+		return err
+	}
+	if call.Op != "call" {
+		return fmt.Errorf("expected a call")
+	}
+	rnames := strings.Split(strings.ReplaceAll(text[i+4:], " ", ""), ",")
+	key := call.Name
+	ct := cf.Funcs[key]
+	fn := p.funcs[pkg+"."+key]
+	if ct == nil || fn == nil {
+		// method contracts are written F = "(*T).m": allow the short form T.m
+		for k, c := range cf.Funcs {
+			if strings.HasSuffix(k, ")."+key) || k == key {
+				ct, fn = c, p.funcs[pkg+"."+k]
+			}
+		}
+	}
+	if ct == nil || fn == nil {
+		return fmt.Errorf("no contract/function %s", key)
+	}
+	cenv := &Env{vc: vc, p: p, pkg: pkg, vars: map[string]Bound{}, state: env.state, old: env.state}
+	if len(call.Args) != len(fn.Params) {
+		return fmt.Errorf("%s takes %d arguments", key, len(fn.Params))
+	}
+	for j, a := range call.Args {
+		b, err := env.eval(a)
+		if err != nil {
+			return err
+		}
+		cenv.vars[fn.Params[j].Name()] = Bound{V: b.V, T: fn.Params[j].Type()}
+	}
+	sig := fn.Signature
+	if len(rnames) != sig.Results().Len() {
+		return fmt.Errorf("%s has %d results", key, sig.Results().Len())
+	}
+	for j, rn := range rnames {
+		rt := sig.Results().At(j).Type()
+		s := vc.sortOf(rt)
+		n := "lr_" + rn
+		vc.declare(n, s)
+		vc.assume(vc.rangeFact(rt, n))
+		b := Bound{V: Val{n, s}, T: rt}
+		env.vars[rn] = b
+		cenv.results = append(cenv.results, b)
+	}
+	for _, r := range ct.Requires {
+		t, err := cenv.evalBool(r.Expr)
+		if err != nil {
+			return err
+		}
+		vc.assume(t) // the lemma speaks about calls that satisfy the precondition
+	}
+	for _, en := range ct.Ensures {
+		t, err := cenv.evalBool(en.Expr)
+		if err != nil {
+			return err
+		}
+		vc.assume(t)
+	}
+	return nil
 }
